@@ -22,6 +22,7 @@ a different length, out-of-range indices, empty coordinate sets.
 import math
 
 import numpy as np
+from ..common import quiet as _quiet
 
 from ..common import fbits, unfbits, vlist, close
 
@@ -289,7 +290,7 @@ def _run(fixed, mobile0, mobile, restr, restr_as):
         r = [tuple(p) for p in restr]
     out = {"calc": None}
     try:
-        with np.errstate(all="ignore"):
+        with _quiet():
             calc = Chi2Calculator(F, M0, r)
     except Exception as e:  # noqa: BLE001
         out.update(stage="new", error=type(e).__name__)
@@ -302,7 +303,7 @@ def _run(fixed, mobile0, mobile, restr, restr_as):
     if len(mobile) == len(mobile0) and len(mobile) > 0:
         for decoy in (M0, _arr((M[::-1] * 1.9 + np.array([0.7, -1.3, 0.4])).tolist())):
             try:
-                with np.errstate(all="ignore"):
+                with _quiet():
                     calc(decoy)
             except Exception:  # noqa: BLE001  (the case under test decides what is reported)
                 pass
@@ -313,7 +314,7 @@ def _run(fixed, mobile0, mobile, restr, restr_as):
     if len(mobile) == len(mobile0) and len(mobile) > 0:
         try:
             buf = np.array((M[::-1] * 1.9 + np.array([0.7, -1.3, 0.4])), dtype=float)
-            with np.errstate(all="ignore"):
+            with _quiet():
                 calc(buf)
                 buf[:] = M
                 vbuf = float(calc(buf))
@@ -329,13 +330,13 @@ def _run(fixed, mobile0, mobile, restr, restr_as):
         try:
             Mf = np.asfortranarray(M)
             Mf.flags.writeable = False
-            with np.errstate(all="ignore"):
+            with _quiet():
                 vf = float(calc(Mf))
         except Exception:  # noqa: BLE001
             vf = None
     out["value_via_fortran_order"] = vf
     try:
-        with np.errstate(all="ignore"):
+        with _quiet():
             v = calc(M)
     except Exception as e:  # noqa: BLE001
         out.update(stage="call", error=type(e).__name__)
